@@ -46,11 +46,20 @@ func workloadBG(in *Instance, h *History, ack *os.File) int {
 			if h.PauseMs > 0 {
 				time.Sleep(time.Duration(h.PauseMs) * time.Millisecond)
 			}
+		case "enqueue":
+			if err := in.Enqueue(h, st); err != nil {
+				fmt.Fprintln(os.Stderr, "enqueue:", err)
+				return 4
+			}
 		case "shutdown":
 			pre := QueryAll(in.Cat)
 			b, _ := json.Marshal(pre)
 			os.WriteFile(ackf+".pre", b, 0o644)
 			in.WAL.Shutdown()
+			// what a query returns once the shutdown has completed (the pending requests are applied by then)
+			post := QueryAll(in.Cat)
+			b, _ = json.Marshal(post)
+			os.WriteFile(ackf+".post", b, 0o644)
 		default:
 			// checkpoints and rotations are timer-driven in this mode
 		}
